@@ -1256,7 +1256,12 @@ _lookup(LB* self,
     else
         key = required;
 
-    result = PyDict_GetItem(cache, key);
+    result = PyDict_GetItemWithError(cache, key);
+    if (result == NULL && PyErr_Occurred()) {
+        /* e.g. an unhashable element of `required` */
+        Py_DECREF(required);
+        return NULL;
+    }
     if (result == NULL) {
         int status;
 
@@ -1342,7 +1347,9 @@ _lookup1(LB* self,
     if (cache == NULL)
         return NULL;
 
-    result = PyDict_GetItem(cache, required);
+    result = PyDict_GetItemWithError(cache, required);
+    if (result == NULL && PyErr_Occurred())
+        return NULL;
     if (result == NULL) {
         PyObject* tup;
 
@@ -1524,7 +1531,11 @@ _lookupAll(LB* self, PyObject* required, PyObject* provided)
         return NULL;
     }
 
-    result = PyDict_GetItem(cache, required);
+    result = PyDict_GetItemWithError(cache, required);
+    if (result == NULL && PyErr_Occurred()) {
+        Py_DECREF(required);
+        return NULL;
+    }
     if (result == NULL) {
         int status;
 
@@ -1598,7 +1609,11 @@ _subscriptions(LB* self, PyObject* required, PyObject* provided)
         return NULL;
     }
 
-    result = PyDict_GetItem(cache, required);
+    result = PyDict_GetItemWithError(cache, required);
+    if (result == NULL && PyErr_Occurred()) {
+        Py_DECREF(required);
+        return NULL;
+    }
     if (result == NULL) {
         int status;
 
